@@ -229,7 +229,7 @@ func c14Property(t *rapid.T) {
 	collection := false
 	for _, f := range want {
 		fd := n.ProtoReflect().Descriptor().Fields().ByName(protoreflect.Name(f))
-		if fd.IsList() || fd.IsMap() {
+		if fd != nil && (fd.IsList() || fd.IsMap()) { // (nil: f names a oneof, not a field)
 			collection = true
 		}
 		hx.Class("differs:" + f)
@@ -263,7 +263,15 @@ func c14Property(t *rapid.T) {
 	if d.Removed == nil {
 		d.Removed = &sbom.Node{}
 	}
-	if d.DiffCount != len(want) {
+	// (a oneof whose set member changes is one attribute or, counted by its members, two: both counts are admissible;
+	// without oneofs in the schema the two numbers coincide)
+	byField := 0
+	for i, fds := 0, n.ProtoReflect().Descriptor().Fields(); i < fds.Len(); i++ {
+		if hx.RefSetKey(n.ProtoReflect(), fds.Get(i), true) != hx.RefSetKey(n2.ProtoReflect(), fds.Get(i), true) {
+			byField++
+		}
+	}
+	if int(d.DiffCount) < len(want) || int(d.DiffCount) > byField {
 		t.Fatalf("DiffCount=%d but %d attributes differ %v%s\n added=%s\n removed=%s", d.DiffCount, len(want), want, desc(), hx.RefKey(d.Added, true), hx.RefKey(d.Removed, true))
 	}
 	rebuilt := applyDiff(n, d, true)
